@@ -2,7 +2,19 @@
 
 package main
 
-import "github.com/klauspost/compress/zstd"
+import (
+	"bytes"
+	"fmt"
+	"io"
+	"runtime"
+	"runtime/debug"
+	"sync"
+	"time"
+
+	"github.com/filecoin-project/go-f3/gpbft"
+	"github.com/filecoin-project/go-f3/internal/encoding"
+	"github.com/klauspost/compress/zstd"
+)
 
 // a valid zstd frame that expands to 64 MiB of zeros
 func zstdBomb() []byte {
@@ -20,4 +32,116 @@ func zstdFrame(content []byte) []byte {
 		return nil
 	}
 	return enc.EncodeAll(content, nil)
+}
+
+// gatedMsg is a PartialGMessage whose CBOR decoder can be held at its very first byte: the compressed decoder has then
+// produced the decompressed bytes and is about to parse them.
+type gatedMsg struct {
+	gpbft.PartialGMessage
+	arrived, release chan struct{}
+}
+
+func (m *gatedMsg) UnmarshalCBOR(r io.Reader) error {
+	if m.arrived != nil {
+		m.arrived <- struct{}{}
+		<-m.release
+	}
+	return m.PartialGMessage.UnmarshalCBOR(r)
+}
+
+// zstdInFlight: decoding is safe for concurrent use -- while one compressed message is between decompression and the
+// end of CBOR parsing, other compressed messages are decoded completely; everybody must get its own message back.
+// Scripted interleaving (one P, no GC, so that a pooled scratch buffer released too early is handed out again at once),
+// then a plain multi-goroutine stress run.
+func zstdInFlight(o *out, msgs []*gpbft.PartialGMessage) {
+	if len(msgs) < 2 {
+		return
+	}
+	canon := func(m *gpbft.PartialGMessage) []byte {
+		var b bytes.Buffer
+		if err := m.MarshalCBOR(&b); err != nil {
+			return nil
+		}
+		return b.Bytes()
+	}
+	codec, err := encoding.NewZSTD[*gatedMsg]()
+	must(err)
+	prev := runtime.GOMAXPROCS(1)
+	gc := debug.SetGCPercent(-1)
+	for i := 0; i+1 < len(msgs) && i < 24; i++ {
+		a, b := msgs[i], msgs[i+1]
+		ca, cbb := canon(a), canon(b)
+		if ca == nil || cbb == nil || bytes.Equal(ca, cbb) {
+			continue
+		}
+		wa, err1 := codec.Encode(&gatedMsg{PartialGMessage: *a})
+		wb, err2 := codec.Encode(&gatedMsg{PartialGMessage: *b})
+		if err1 != nil || err2 != nil {
+			continue
+		}
+		first := &gatedMsg{arrived: make(chan struct{}, 1), release: make(chan struct{})}
+		done := make(chan error, 1)
+		go func() { done <- codec.Decode(wa, first) }()
+		select {
+		case <-first.arrived:
+		case err := <-done:
+			o.violate("wire types decode to an equal value after encoding, with compression", "c14-zstd-in-flight", map[string]any{"pair": i}, fmt.Sprintf("first decode failed early: %v", err))
+			continue
+		case <-time.After(10 * time.Second):
+			o.violate("wire types decode to an equal value after encoding, with compression", "c14-zstd-in-flight", map[string]any{"pair": i}, "first decode never reached the CBOR parser")
+			continue
+		}
+		// the first message is decompressed and not yet parsed: decode the second one (twice) in the meantime
+		var second gatedMsg
+		errB := codec.Decode(wb, &second)
+		var third gatedMsg
+		_ = codec.Decode(wb, &third)
+		close(first.release)
+		errA := <-done
+		in := map[string]any{"pair": i, "first_sender": a.Sender, "second_sender": b.Sender, "first_len": len(ca), "second_len": len(cbb)}
+		if errB != nil || !bytes.Equal(canon(&second.PartialGMessage), cbb) {
+			o.violate("wire types decode to an equal value after encoding, with compression (concurrent decoding)", "c14-zstd-in-flight", in, fmt.Sprintf("the message decoded in the meantime differs from what was encoded (err=%v)", errB))
+		}
+		if errA != nil || !bytes.Equal(canon(&first.PartialGMessage), ca) {
+			o.violate("wire types decode to an equal value after encoding, with compression (concurrent decoding)", "c14-zstd-in-flight", in,
+				fmt.Sprintf("a message held between decompression and CBOR parsing while another one was decoded came back as a different message (err=%v)", errA))
+		}
+		o.count("zstd-in-flight", fmt.Sprint(i), true)
+	}
+	debug.SetGCPercent(gc)
+	runtime.GOMAXPROCS(prev)
+	// stress: 8 goroutines, each decoding its own message over and over
+	plain, err := encoding.NewZSTD[*gpbft.PartialGMessage]()
+	must(err)
+	var wg sync.WaitGroup
+	var mu sync.Mutex
+	bad := ""
+	for w := 0; w < 8; w++ {
+		m := msgs[w%len(msgs)]
+		want := canon(m)
+		wire, err := plain.Encode(m)
+		if err != nil || want == nil {
+			continue
+		}
+		wg.Add(1)
+		go func(w int) {
+			defer wg.Done()
+			for k := 0; k < 150; k++ {
+				var got gpbft.PartialGMessage
+				if err := plain.Decode(wire, &got); err != nil || !bytes.Equal(canon(&got), want) {
+					mu.Lock()
+					if bad == "" {
+						bad = fmt.Sprintf("goroutine %d iteration %d: err=%v", w, k, err)
+					}
+					mu.Unlock()
+					return
+				}
+			}
+		}(w)
+	}
+	wg.Wait()
+	if bad != "" {
+		o.violate("wire types decode to an equal value after encoding, with compression (concurrent decoding)", "c14-zstd-concurrent", nil, bad)
+	}
+	o.count("zstd-concurrent-stress", "8x150", true)
 }
